@@ -76,6 +76,34 @@ def evaluate(sid, checks, tier="quick"):
     return res
 
 
+def sideeval(sid, slot, checks, tier="quick"):
+    """Like evaluate(), but in a scratch worktree /tmp/ev/<slot> through lib/sidecheck.sh: /repo is not touched."""
+    d = os.path.join(VERIF, "seeded", sid)
+    wt = f"/tmp/ev/{slot}"
+    sh("git checkout -- .", wt)
+    rc, o = sh(f"git apply {d}/patch.diff", wt)
+    if rc != 0:
+        raise SystemExit("patch does not apply: " + o)
+    res = {}
+    try:
+        for c in checks:
+            t0 = time.time()
+            rc, o = sh(f"TIER={tier} {VERIF}/lib/sidecheck.sh {wt} {slot} {c}", VERIF, timeout=14400)
+            lines = o.splitlines()
+            viol = [l for l in lines if l.startswith("VIOLATION")]
+            ok = any(l.startswith("OK property") for l in lines)
+            first = next((l.strip() for l in lines if l.startswith("  [")), "")
+            res[c] = {"exit": 1 if viol else (0 if ok else 2), "violations": len(viol), "first": first, "wall_s": round(time.time() - t0),
+                      "tool_error": [l for l in lines if l.startswith("TOOL")][:1]}
+    finally:
+        sh("git checkout -- .", wt)
+    mp = os.path.join(d, "meta.json")
+    meta = json.load(open(mp))
+    meta["detected_by"].update(res)
+    json.dump(meta, open(mp, "w"), indent=1)
+    return res
+
+
 if __name__ == "__main__":
     if sys.argv[1] == "confirm":
         pid, m = sys.argv[2], sys.argv[3]
@@ -85,5 +113,7 @@ if __name__ == "__main__":
             print("kept:", keep(pid, m, c))
         else:
             print(c.get("suite_output", ""))
+    elif sys.argv[1] == "sideeval":
+        print(json.dumps(sideeval(sys.argv[2], sys.argv[3], sys.argv[4:]), indent=1))
     elif sys.argv[1] == "eval":
         print(json.dumps(evaluate(sys.argv[2], sys.argv[3:]), indent=1))
